@@ -4,13 +4,14 @@ from __future__ import annotations
 
 import ast
 
+from ..alpha import Loc, afind, amatch
 from ..cfg import CFG
 from ..const import Folder
 from ..flow import Slicer, flat_guards, parent_map
 from ..model import Model, dotted, norm, walk_no_nested
 from ..report import Run
 from .C05 import _calls_in_stmt
-from .common import short
+from .common import prev_minus_new, short
 
 PEER = 'exabgp.reactor.peer.peer.Peer'
 RIB = 'exabgp.rib.outgoing.OutgoingRIB'
@@ -67,8 +68,8 @@ def check(model: Model, run: Run) -> None:
     extra = [x for x in forced if x not in good]
     run.check(not extra, f.qualname, 'no other announcement queued by replace_restart (%d extra)' % len(extra), f.loc(extra[0][2]) if extra else f.loc(), 'queueing anything else than the cached routes (%s) re-advertises routes that were withdrawn while the session was down' % '; '.join('%s over %s force=%s' % (norm(x[2])[:40], x[1][:40], x[0]) for x in extra))
     # withdraw previous - new
-    txt = norm(f.node)
-    okw = 'indexed[route.index()] = route' in txt and 'indexed.pop(route.index(), None)' in txt and len(dels) == 1 and 'indexed.pop(index)' in norm(dels[0])
+    pmn = prev_minus_new(model, f)
+    okw = pmn['filled'] and pmn['pruned'] and len(dels) == 1 and pmn['withdrawn'] == dels and all(flat_guards(f.node, d) in ([], [(t, p) for t, p in flat_guards(f.node, d) if dotted(t) == 'self.enabled']) for d in dels)
     run.check(okw, f.qualname, 'del_from_rib for previous minus new', f.loc(dels[0]) if dels else f.loc(), 'configured routes that disappeared are withdrawn')
     g = [c for c in adds + dels if any(not (dotted(t) == 'self.enabled') for t, pol in flat_guards(f.node, c) if not isinstance(t, ast.Name))]
     # order: the cached routes are re-queued in a loop at function level
@@ -103,18 +104,23 @@ def check(model: Model, run: Run) -> None:
     eors = model.calls_to(se.module, se.node, 'Protocol.new_eors')
     auto = [c for c in eors if not c.args]
     okg = False
+    sep = [a.arg for a in se.node.args.args]
+    flag_p, gen_p = (sep[1], sep[2]) if len(sep) >= 3 else ('?', '?')
     if len(auto) == 1:
         g = [(norm(t), pol) for t, pol in flat_guards(se.node, auto[0])]
-        okg = sorted(g) == sorted([('new_routes', False), ('send_eor', True)])
+        okg = sorted(g) == sorted([(gen_p, False), (flag_p, True)])
     run.check(okg, se.qualname, 'automatic EOR under (not new_routes and send_eor)', se.loc(auto[0]) if auto else se.loc(), 'the End-of-RIB marker must follow the last UPDATE of the initial batch: new_routes (the live generator) must be exhausted; RIB.pending() is already false while the generator still holds the batch')
-    clr = [n for n in walk_no_nested(se.node) if isinstance(n, ast.Assign) and dotted(n.targets[0]) == 'send_eor' and folder.fold(n.value, se.module) is False]
+    clr = [n for n in walk_no_nested(se.node) if isinstance(n, ast.Assign) and dotted(n.targets[0]) == flag_p and folder.fold(n.value, se.module) is False]
     run.check(len(clr) == 1 and auto and clr[0].lineno < auto[0].lineno + 2, se.qualname, 'send_eor cleared when the EOR is sent', se.loc(), 'exactly one automatic EOR batch per session')
-    init = [n for n in walk_no_nested(mainf.node) if isinstance(n, ast.Assign) and dotted(n.targets[0]) == 'send_eor']
-    ok = any(norm(n.value) == 'not self.neighbor.manual_eor' for n in init) and any(isinstance(n.value, ast.Await) and 'self._send_eor_messages(send_eor, new_routes)' in norm(n.value) for n in init)
-    run.check(ok, mainf.qualname, 'send_eor = not manual_eor, then threaded through _send_eor_messages(send_eor, new_routes)', mainf.loc(), 'the EOR state must survive loop iterations')
+    ml = Loc(model, mainf)
+    flags = ml.from_value(lambda v: norm(v) == 'not self.neighbor.manual_eor')
+    thread = [b for n, b in afind('V_e = await self._send_eor_messages(V_e, V_g)', mainf.node) if b['V_e'] in flags]
+    gen_v = thread[0]['V_g'] if thread else None
+    run.check(len(flags) == 1 and len(thread) == 1, mainf.qualname, 'send_eor = not manual_eor, then threaded through _send_eor_messages(send_eor, new_routes)', mainf.loc(), 'the EOR state must survive loop iterations')
     # new_routes is set to None only on exhaustion
     sru = model.func(PEER + '._send_route_updates')
-    nn = [n for n in walk_no_nested(sru.node) if isinstance(n, ast.Assign) and dotted(n.targets[0]) == 'new_routes' and isinstance(n.value, ast.Constant) and n.value.value is None]
+    srp = sru.node.args.args[1].arg if len(sru.node.args.args) > 1 else '?'
+    nn = [n for n in walk_no_nested(sru.node) if isinstance(n, ast.Assign) and dotted(n.targets[0]) == srp and isinstance(n.value, ast.Constant) and n.value.value is None]
     okn = len(nn) == 1
     if okn:
         p = pm_handler(parent_map(sru.node), nn[0])
@@ -122,16 +128,23 @@ def check(model: Model, run: Run) -> None:
     run.check(okn, sru.qualname, 'new_routes = None only in the StopAsyncIteration arm', sru.loc(nn[0]) if nn else sru.loc(), 'the generator must be dropped exactly when it is exhausted')
     ne = model.func(PROTO + '.new_eors')
     run.analysed(ne)
-    t3 = norm(ne.node)
-    run.check('self.negotiated.families if (afi, safi) == (AFI.undefined, SAFI.undefined) else [(afi, safi)]' in t3 and 'for eor_afi, eor_safi in families' in t3 and 'await self.new_eor(eor_afi, eor_safi)' in t3, ne.qualname, 'one EOR per negotiated family', ne.loc(), 'RFC 4724: an End-of-RIB marker for each negotiated family')
+    nep = [a.arg for a in ne.node.args.args]
+    fam = [n for n in walk_no_nested(ne.node) if isinstance(n, ast.Assign) and len(nep) >= 3 and amatch('self.negotiated.families if (V_a, V_s) == (AFI.undefined, SAFI.undefined) else [(V_a, V_s)]', n.value, {'V_a': nep[1], 'V_s': nep[2]}) is not None and isinstance(n.targets[0], ast.Name)]
+    each = False
+    if len(fam) == 1:
+        for lp in walk_no_nested(ne.node):
+            if isinstance(lp, ast.For) and isinstance(lp.iter, ast.Name) and lp.iter.id == fam[0].targets[0].id and isinstance(lp.target, ast.Tuple) and len(lp.target.elts) == 2:
+                a, b = (dotted(e) for e in lp.target.elts)
+                each = any(amatch('await self.new_eor(V_a, V_s)', x, {'V_a': a, 'V_s': b}) is not None for st in lp.body for x in ast.walk(st))
+    run.check(each, ne.qualname, 'one EOR per negotiated family', ne.loc(), 'RFC 4724: an End-of-RIB marker for each negotiated family')
 
     # ------------------------------------------------------------------ R5
     run.rule('C11.R5', 'a withdraw while the session is down removes the route from the cache (shared with C04.R2), so replace_restart cannot see it; the generator of the lost session is a local of _main', floor=2)
     di = model.func(RIB + '._del_from_rib_impl')
     calls = model.calls_to(di.module, di.node, 'Cache.update_cache_withdraw')
     run.check(len(calls) == 1 and any(isinstance(st, ast.Expr) and st.value is calls[0] for st in di.node.body), di.qualname, 'update_cache_withdraw(nlri) unconditionally', di.loc(), 'a withdrawn route must leave the cache whatever the session state')
-    stores = [n for n in walk_no_nested(mainf.node) if isinstance(n, ast.Assign) and any(isinstance(t, ast.Attribute) and 'new_routes' in (t.attr,) for t in n.targets)]
-    run.check(not stores and any(isinstance(n, ast.Assign) and dotted(n.targets[0]) == 'new_routes' and isinstance(n.value, ast.Constant) for n in walk_no_nested(mainf.node)), mainf.qualname, 'the update generator is a local of _main (dropped with the frame on session loss)', mainf.loc(), 'a half-consumed generator of the lost session must not survive into the next one')
+    stores = [n for n in walk_no_nested(mainf.node) if isinstance(n, ast.Assign) and any(isinstance(t, ast.Attribute) for t in n.targets) and gen_v is not None and gen_v in ml.reads(n.value)]
+    run.check(gen_v is not None and not stores and any(isinstance(v, ast.Constant) and v.value is None for v in ml.values(gen_v)), mainf.qualname, 'the update generator is a local of _main (dropped with the frame on session loss)', mainf.loc(), 'a half-consumed generator of the lost session must not survive into the next one')
 
 
 def pm_loop_target(pm: dict, node: ast.AST):
